@@ -128,15 +128,30 @@ def arm(arms, other, k):
     return arms.get(k, other)
 
 
+def copies_of(body, l):
+    """l and every local that is (transitively) a single-definition whole copy / move of it (`dst = move ret` left behind by an inlined helper)"""
+    out = {l}
+    changed = True
+    while changed:
+        changed = False
+        for x, ds in body.defs.items():
+            if x in out: continue
+            ds = [d for d in ds if d[0] in body.reachable]
+            if len(ds) == 1 and ds[0][1] != "T" and ds[0][2][0] == "Use" and op_local(ds[0][2][1]) in out:
+                out.add(x); changed = True
+    return out
+
+
 def option_test_edges(body, dag, result_local):
     """all tests of an Option / Result held in `result_local`: list of (block, has_value_target, empty_target).
     Recognises `match` (discriminant switch, either arm possibly being `otherwise`) and is_some / is_none / is_ok / is_err boolean tests."""
     out = []
     ty = body.locals[result_local]["ty"]
     value_variant = 0 if ty.startswith("std::result::Result") else 1
+    same_value = copies_of(body, result_local)
     for b in sorted(body.reachable):
         vs = variant_switch(body, dag, b)
-        if vs and vs[3] == result_local and not vs[4]:
+        if vs and vs[3] in same_value and not vs[4]:
             out.append((b, vs[1].get(value_variant, vs[2]), vs[1].get(1 - value_variant, vs[2]))); continue
         t = body.term(b)
         if t[0] == "Switch" and t[5] == "bool":
@@ -156,7 +171,7 @@ def option_test_edges(body, dag, result_local):
     return out
 
 
-def flag_paths(body, dag, start, stop_blocks=(), cut=None, follow_back=True):
+def flag_paths(body, dag, start, stop_blocks=(), cut=None, follow_back=True, visit=None):
     """Path exploration that understands flags: blocks reachable from `start` without entering `stop_blocks`, where
       * an edge is pruned when it contradicts the value last assigned to the tested flag on that path
         (`let must = match .. { A => true, B => !f() }; if must {..}`: the false edge is infeasible after the `true` arm;
@@ -192,6 +207,17 @@ def flag_paths(body, dag, start, stop_blocks=(), cut=None, follow_back=True):
             elif rv[0] == "Discr" and not rv[1]["p"] and not disc: l = rv[1]["l"]; disc = True
             else: return None, disc
         return None, disc
+    def through_try(l):
+        """`x?`: the switch tests discriminant(Try::branch(x)); ControlFlow::Continue = 0 / Break = 1 map onto x's variants (Option: Some=1 / None=0, Result: Ok=0 / Err=1).
+        Returns (local of x, {controlflow idx: x's variant idx}) or None"""
+        d = body.single_def(l) if l is not None else None
+        if d is None or d[2][0] != "Discr" or d[2][1]["p"]: return None
+        d2 = body.single_def(d[2][1]["l"])
+        if d2 is None or d2[2][0] != "CallRes" or not (d2[2][1].get("f") or "").endswith("Try::branch") or not d2[2][1]["args"]: return None
+        x = op_local(d2[2][1]["args"][0])
+        if x is None: return None
+        ty = body.locals[x]["ty"]
+        return (x, {0: 1, 1: 0} if ty.startswith("std::option::Option") else {0: 0, 1: 1})
     seen = set(); reached = set()
     st = [(start, ())]
     while st:
@@ -202,6 +228,7 @@ def flag_paths(body, dag, start, stop_blocks=(), cut=None, follow_back=True):
         for i, s_ in enumerate(body.stmts(b)):
             if s_[0] != "A" or s_[1]["p"]: continue
             l = s_[1]["l"]
+            if visit is not None: visit(b, i, s_, env, flags)
             if l in flags:
                 rv = s_[2]
                 if rv[0] == "Use" and rv[1][0] in ("c", "m") and not rv[1][1]["p"] and rv[1][1]["l"] in env:
@@ -212,6 +239,18 @@ def flag_paths(body, dag, start, stop_blocks=(), cut=None, follow_back=True):
         nenv = tuple(sorted(env.items()))
         succs = None
         if t[0] == "Switch":
+            tr = through_try(op_local(t[1]))
+            if tr is not None:
+                fl, _d = resolve(tr[0]); vmap = tr[1]
+                if fl is not None and fl in env:
+                    db, di = env[fl]; rvx = body.stmts(db)[di][2]
+                    if rvx[0] == "Agg" and rvx[1][0] == "Adt" and isinstance(rvx[1][3], int):
+                        want = [cf for cf, xv in vmap.items() if xv == rvx[1][3]]
+                        if want:
+                            tg = [x_[1] for x_ in t[2] if x_[0] == want[0]]
+                            for s2 in ([tg[0]] if tg else [t[3]]):
+                                if (b, s2) not in back: st.append((s2, nenv))
+                            continue
             fl, disc = resolve(op_local(t[1]))
             rv = None
             if fl is not None and fl in env:
@@ -289,3 +328,49 @@ def variant_edges_place(body, b):
     d = body.single_def(l)
     if not d or d[2][0] != "Discr": return None
     return (d[2][1], place_type(body, d[2][1]), {v: tg for (v, tg) in t[2]}, t[3])
+
+
+def returned_values(body, dag, start):
+    """what the function can answer on the paths through `start` (back edges not followed), flag-aware: set of ('const', v) | ('variant', idx) | ('other', text).
+    `_0 = copy flag` is read through to the constant / variant last assigned to the flag on that path (`let r = if full { false } else { ..; true }; unlock(); r`)."""
+    out = set()
+    def classify(rv):
+        if rv[0] == "Use" and rv[1][0] == "k": return ("const", rv[1][1].get("int"))
+        if rv[0] == "Agg" and rv[1][0] == "Adt": return ("variant", rv[1][3])
+        return None
+    def visit(b, i, st, env, flags):
+        if st[1]["l"] != 0: return
+        rv = st[2]
+        c = classify(rv)
+        if c is None and rv[0] == "Use" and rv[1][0] in ("c", "m") and not rv[1][1]["p"]:
+            l = rv[1][1]["l"]
+            for _ in range(8):
+                if l in env:
+                    db, di = env[l]; c = classify(body.stmts(db)[di][2]); break
+                d = body.single_def(l)
+                if d is None or d[1] == "T" or d[2][0] != "Use" or d[2][1][0] not in ("c", "m") or d[2][1][1]["p"]:
+                    if d is not None and d[1] != "T": c = classify(d[2])
+                    break
+                l = d[2][1][1]["l"]
+        out.add(c if c is not None else ("other", str(rv)[:60]))
+    flag_paths(body, dag, start, follow_back=False, visit=visit)
+    return out
+
+
+def only_via(body, dag, test_block, edge, other_edge, blk):
+    """blk runs only after `edge` of the test at test_block was taken: dominated by the edge, or dominated by the test and (flag-aware) unreachable from the
+    other edge without re-running the test -- the decision may travel through an Option / flag built on that edge and unpacked later (`let r = 'l: {..}; r?`)"""
+    if body.dominates(edge, blk): return True
+    return body.dominates(test_block, blk) and blk not in flag_paths(body, dag, other_edge, stop_blocks={test_block})
+
+
+def counter_bound_exit(body, dag, x, y, bounds=("MAX_STREAMS", "running_streams_count", "POOL_SIZE", "BUFFER_SIZE")):
+    """the exit edge x->y of an index loop `while i < BOUND` / `for i in 0..BOUND` written by hand: the test is `i < BOUND` on a loop-carried counter and
+    the exit is its false side (the whole range was visited)"""
+    c = D.cmp_of_switch(body, dag, x)
+    if not c: return False
+    cb = D.canon_branch(c)
+    if cb is None or cb[0] != "lt": return False
+    kind, a, b, T, Fl = cb
+    a_, b_ = D.strip_casts(a), D.strip_casts(b)
+    return Fl == y and T != Fl and a_[0] == "phi" and any(n in D.show(b_) for n in bounds)
